@@ -691,13 +691,15 @@ FRAGS = {
              'lambda: x', '[i for i in j]', '"s" "t"', 'a\\\n+ b', 'a  # c', '# c\na', 'é + ü', 'x := 1', 'yield y',
              'a.b[c](d)', '-x ** 2', 'not a', 'a < b < c', '{**k}', 'a,', '*a, b', 'await z', "f'{x=}'",
              '(\na\n)', 'a\n', '\na', 'a b', 'a +', ') + (', 'a)', '(a', '', 'x = 1', 'pass'],
-    'expr_all': ['*a', '*a,', '*a\n ,', '*abc\n  \\\n   ,', '*a # comment\n ,', 'a:b', 'a:b, c', '*a, b:c', 'a', 'a b'],
-    'expr_slice': ['a', 'a:b', 'a:b:c', ':', 'a:b, c', '*a', 'a,', 'a b', ''],
+    'expr_all': ['*a', '*a,', '*a\n ,', '*abc\n  \\\n   ,', '*a # comment\n ,', 'a:b', 'a:b, c', '*a, b:c', 'a', 'a b',
+                 'b].c[d', 'b](c)[d'],
+    'expr_slice': ['a', 'a:b', 'a:b:c', ':', 'a:b, c', '*a', 'a,', 'a b', '', 'b].c[d', 'b](c)[d', 'b][c'],
     'arg': ['a', 'a: int', 'a: *b', 'a: *b, **c', 'a: *b, c', 'a, b', 'a=1', 'a: int = 1', '*a', '**a', 'a  # c',
-            'é: "ü"', 'a:\n int', ''],
-    'keyword': ['a=1', '**a', 'a = (\n1)', 'a=1, b=2', 'a', 'a=1  # c', 'é="ü"', 'a=\n1', ''],
+            'é: "ü"', 'a:\n int', '', 'a) -> (b', 'a: int) -> (b', 'a): pass\ndef g(b'],
+    'keyword': ['a=1', '**a', 'a = (\n1)', 'a=1, b=2', 'a', 'a=1  # c', 'é="ü"', 'a=\n1', '', 'a=1)(b=2', 'x)(a=1', 'a=1)[b'],
     'pattern': ['a', '1', 'a | b', 'a, b', 'a,\n"éé", b, # c', '[a, *b]', '{1: x, **r}', 'C(a, k=b)', 'a as b',
-                '*a', '_', 'None', '-1', '1+2j', 'a.b', '(a)', 'a b', 'a |', ''],
+                '*a', '_', 'None', '-1', '1+2j', 'a.b', '(a)', 'a b', 'a |', '', 'a if x', 'a | b if x', 'a, b if x',
+                '1 if x'],
     'withitem': ['a', 'a as b', 'a as (b, c)', '(a) as b', 'a, b', 'a as', 'f(x) as y  # c', ''],
     'comprehension': ['for a in b', 'for a in b if c', 'async for a in b', 'for a, b in c if d if e',
                       'for a in b for c in d', 'for a', 'for a in b)', 'for é in ü', ''],
